@@ -11,6 +11,7 @@
  *   Q                                              quit
  * stdout: one canonical line per command (see lib/verif/props/_feb_common.py).
  */
+#define _GNU_SOURCE 1
 #include "feb.c"
 #include <stdio.h>
 #include <string.h>
@@ -57,11 +58,12 @@ typedef struct {
     int            n, pcs[MAXPC];
 } pre_t;
 
-typedef struct {
+typedef struct script_s {
     int        ntasks, next, npre, nwords;
     aligned_t *W;
     task_t    *T;      /* ntasks + next */
     pre_t     *P;
+    struct script_s *prev;
 } script_t;
 
 static script_t *S = NULL;
@@ -169,6 +171,10 @@ static void *ext_main(void *arg)
 {
     task_t *T = (task_t *)arg;
     char    marker;
+    cpu_set_t all;       /* created from a pinned worker: undo the inherited affinity */
+    CPU_ZERO(&all);
+    for (int c = 0; c < CPU_SETSIZE; c++) CPU_SET(c, &all);
+    sched_setaffinity(0, sizeof(all), &all);
     T->stk_hi = &marker;
     __sync_synchronize();
     T->self = (qthread_t *)1;
@@ -267,12 +273,13 @@ static int wait_quiescent(void)
     double t0 = now();
     int    stable = 0;
     for (unsigned long it = 0;; it++) {
+        qthread_yield();
         if (quiescent(why)) {
-            if (++stable >= 2) return 1;     /* observed twice in a row */
+            if (++stable >= 2) return 1;     /* observed twice in a row, a yield in between */
         } else {
             stable = 0;
         }
-        if ((it & 15) == 15) {
+        if ((it & 63) == 63) {
             if (now() - t0 > 4.0) { printf("STUCK %s\n", why); fflush(stdout); return 0; }
             sched_yield();
         }
@@ -346,13 +353,12 @@ static int run_step(task_t *T)
     return 1;
 }
 
-/* The controller is a plain pthread (not a qthread): it never occupies a worker, so the runtime's own scheduling of the
- * main task plays no role.  It releases one task for one call at a time and polls the audit until the runtime is quiescent. */
-static volatile int runtime_up = 0;
-static void *controller(void *unused)
+/* The controller is a forked qthread, NOT the main (McCoy) task: sherwood re-queues the McCoy task at the head whenever a
+ * worker other than worker 0 dequeues it, which can starve it under yield-spinning; the main task parks on a FEB word for good.
+ * (A non-qthread controller is not possible either: with one worker the runtime creates its FEB hash tables without locks.) */
+static aligned_t controller(void *unused)
 {
     char line[1024];
-    while (!runtime_up) sched_yield();
     printf("H %d %d\n", (int)qthread_num_shepherds(), (int)qthread_num_workers());
     fflush(stdout);
     while (fgets(line, sizeof(line), stdin)) {
@@ -372,12 +378,13 @@ static void *controller(void *unused)
             N->T = calloc(nt + ne + 1, sizeof(task_t));
             N->P = calloc(np + 1, sizeof(pre_t));
             for (int w = 0; w < nw; w++) { long long v = 0; sscanf(line + off, "%lld%n", &v, &adv); off += adv; N->W[w] = (aligned_t)v; }
+            N->prev = S;
             S = N;
             step_no = 0;
             for (int i = 0; i < nt; i++) { S->T[i].id = i; S->T[i].buf = SENT; qthread_fork_to(task_main, &S->T[i], NULL, i % qthread_num_shepherds()); }
             for (int e = 0; e < ne; e++) { task_t *T = &S->T[nt + e]; T->id = nt + e; T->is_ext = 1; T->buf = SENT; pthread_create(&T->pt, NULL, ext_main, T); pthread_detach(T->pt); }
             for (int k = 0; k < np; k++) S->P[k].k = k;
-            for (int i = 0; i < nt + ne; i++) while (S->T[i].self == NULL) sched_yield();
+            for (int i = 0; i < nt + ne; i++) while (S->T[i].self == NULL) qthread_yield();
             printf("s\n"); fflush(stdout);
             continue;
         }
@@ -409,7 +416,21 @@ static void *controller(void *unused)
         }
         if (line[0] == 'E') {
             nblk = 0;
-            qthread_feb_callback(feb_cb, NULL);
+            /* qthread_feb_callback dereferences waiter->rdata, which is NULL for a task that never ran: it crashes on a
+             * parked precondition task (noted as a side finding).  With such a task anywhere in the tables the enumeration
+             * is taken from the audit instead. */
+            int unsafe = 0;
+            for (script_t *x = S; x; x = x->prev)
+                for (int k = 0; k < x->npre; k++) if (x->P[k].spawned && !x->P[k].started) unsafe = 1;
+            if (!unsafe) {
+                qthread_feb_callback(feb_cb, NULL);
+            } else {
+                audit_t A;
+                for (int w = 0; w < S->nwords; w++) {
+                    audit(&S->W[w], &A);
+                    for (int i = 0; i < 4; i++) for (int j = 0; j < A.n[i] && nblk < 256; j++) { blk[nblk].w = w; blk[nblk].id = A.ids[i][j]; nblk++; }
+                }
+            }
             qsort(blk, nblk, sizeof(blk_t), blk_cmp);
             printf("e");
             for (int i = 0; i < nblk; i++) printf(" %d:%d", blk[i].w, blk[i].id);
@@ -422,22 +443,19 @@ static void *controller(void *unused)
     }
     fflush(stdout);
     _exit(0);
-    return NULL;
+    return 0;
 }
 
 static aligned_t park_word;
 
 int main(void)
 {
-    pthread_t ctl;
     setvbuf(stdout, NULL, _IOFBF, 1 << 16);
     signal(SIGALRM, on_alarm);
     alarm(60);
-    pthread_create(&ctl, NULL, controller, NULL);   /* before the runtime pins the main pthread: the controller stays unpinned */
     qthread_initialize();
     qthread_empty(&park_word);
-    __sync_synchronize();
-    runtime_up = 1;
+    qthread_fork_to(controller, NULL, NULL, 0);
     qthread_readFF(NULL, &park_word);      /* the main task parks for good; its worker serves the script tasks */
     return 0;
 }
